@@ -25,6 +25,7 @@ type params struct {
 	F        int
 	P        int
 	Refuse   bool // broker refuses the resume of the first stream (non-conflict code)
+	During   bool // the link is cut first (redial takes 3 s) and the InFlight call is issued during the outage
 	Conflict bool // broker answers the first resume attempt of every stream with RESUME_REQUEST_CONFLICT, the next with success
 	Lemma    string
 }
@@ -35,6 +36,9 @@ func (p params) name() string {
 	}
 	if p.Conflict {
 		return fmt.Sprintf("%s/%s/F%d/P%d/conflict", p.Streams, p.InFlight, p.F, p.P)
+	}
+	if p.During {
+		return fmt.Sprintf("%s/%s/F%d/P%d/during-outage", p.Streams, p.InFlight, p.F, p.P)
 	}
 	return fmt.Sprintf("%s/%s/F%d/P%d/refuse%v", p.Streams, p.InFlight, p.F, p.P, p.Refuse)
 }
@@ -64,6 +68,12 @@ func scenarios(tier string) []vlib.Scenario {
 	add(params{Kind: "e", Streams: "upR+upU", InFlight: "none", F: 1, Conflict: true})
 	add(params{Kind: "e", Streams: "upR+upU", InFlight: "none", F: 1, Refuse: true})
 	add(params{Kind: "e", Streams: "up+down", InFlight: "none", F: 1, P: 1})
+	// requests issued while the connection is down
+	for _, f := range []string{"openup", "opendown", "meta", "call", "write"} {
+		add(params{Kind: "e", Streams: "up+down", InFlight: f, F: 0, During: true})
+	}
+	add(params{Kind: "e", Streams: "up+down", InFlight: "meta", F: 1, During: true})
+	add(params{Kind: "e", Streams: "up+down", InFlight: "openup", F: 0, P: 1, During: true})
 	add(params{Kind: "e", Streams: "up", InFlight: "meta", F: 1, P: 1})
 	if tier == "thorough" {
 		for _, s := range streams {
@@ -185,6 +195,9 @@ func (w *world) script() *sim.Script {
 	}
 	refused := false
 	s.AcceptDial = func(n int, cfg transport.DialConfig) (bool, time.Duration) {
+		if w.p.During && n == 1 {
+			return true, 3 * time.Second
+		}
 		if n >= 1 && !refused && vsched.Choose("redial", 2) == 1 {
 			refused = true
 			return false, 0
@@ -262,6 +275,14 @@ func (w *world) main() {
 			w.B.Cut(c)
 		}
 	} else {
+		if w.p.During {
+			if c := w.B.Live(); c != nil {
+				w.cuts++
+				w.estCuts++
+				w.B.Cut(c)
+			}
+			vsched.Sleep(500*time.Millisecond, "h:outage-begins")
+		}
 		wg.Add(1)
 		vsched.Go("h:inflight", func() {
 			defer wg.Done()
